@@ -2,7 +2,7 @@
    the framework of GenInv.v: C11, C16 and C17 for every such schema and every layout. *)
 From Coq Require Import List NArith ZArith Bool Arith Lia.
 Require Import Bebop.front.Tok Bebop.front.Parse Bebop.front.Fmt Bebop.front.TokInv Bebop.front.LexInv Bebop.front.ParseInv Bebop.front.FmtInv Bebop.front.MsgInv.
-Require Import Bebop.front.GenInv Bebop.front.Items Bebop.front.TyInv Bebop.front.TyMsg Bebop.front.TyItems Bebop.front.TyUnion Bebop.front.TyUnionItem Bebop.front.TyOpcode Bebop.front.TyEnum Bebop.front.TyDep Bebop.front.TyDoc Bebop.front.TyDec Bebop.front.TyImport.
+Require Import Bebop.front.GenInv Bebop.front.Items Bebop.front.TyInv Bebop.front.TyMsg Bebop.front.TyItems Bebop.front.TyUnion Bebop.front.TyUnionItem Bebop.front.TyOpcode Bebop.front.TyEnum Bebop.front.TyDep Bebop.front.TyDoc Bebop.front.TyDec Bebop.front.TyImport Bebop.front.TyFDoc Bebop.front.TyFDocM Bebop.front.TyEDoc Bebop.front.TyFDec Bebop.front.TyFEol.
 Import ListNotations.
 
 (* a definition that may carry doc comment lines and opcode lines in front of it, in any number and order *)
@@ -13,7 +13,10 @@ Inductive ddef :=
 | BDMessage (nm : ident) (fl : list ldfield)
 | BUnion (nm : ident) (bl : list lub)
 | BEnum (nm tname : ident) (uns : bool) (bits : N) (ml : list edef)
-| BUEnum (nm : ident) (ml : list edef).
+| BUEnum (nm : ident) (ml : list edef)
+| BFStruct (nm : ident) (fl : list cfdef)            (* fields with their own comment lines / tags / deprecations *)
+| BFMessage (nm : ident) (fl : list cmfdef)
+| BFEnum (nm tname : ident) (uns : bool) (bits : N) (ml : list cedef).
 Definition ddef_ok (b : ddef) : Prop :=
   match b with
   | BStruct nm fl | BRoStruct nm fl => ident_ok nm /\ Forall tfdef_ok fl
@@ -23,22 +26,27 @@ Definition ddef_ok (b : ddef) : Prop :=
   | BEnum nm tname uns bits ml => ident_ok nm /\ ident_ok tname /\ base_ok (ibytes tname) uns bits /\
                                   Forall (fun m => ident_ok (fst m) /\ idx_ok (snd m)) ml /\ tems_ok uns bits (map bem ml)
   | BUEnum nm ml => ident_ok nm /\ Forall (fun m => ident_ok (fst m) /\ idx_ok (snd m)) ml /\ ems_ok (map bem ml)
+  | BFStruct nm fl => ident_ok nm /\ Forall cfdef_ok fl
+  | BFMessage nm fl => ident_ok nm /\ Forall cmfdef_ok fl /\ cmfs_ok [] (map bcm fl)
+  | BFEnum nm tname uns bits ml => ident_ok nm /\ ident_ok tname /\ base_ok (ibytes tname) uns bits /\ Forall cedef_ok ml /\ Forall (cmember_ok uns bits) (map bce ml)
   end.
 Definition ddef_base (b : ddef) : gbase :=
   match b with
   | BStruct nm fl => b_struct nm fl | BRoStruct nm fl => b_rostruct nm fl | BMessage nm fl => b_message nm fl
   | BDMessage nm fl => b_dmessage nm fl | BUnion nm bl => b_union nm bl | BEnum nm tname uns bits ml => b_enum nm tname uns ml
   | BUEnum nm ml => b_uenum nm ml
+  | BFStruct nm fl => b_cfstruct nm fl | BFMessage nm fl => b_cmmessage nm fl | BFEnum nm tname uns bits ml => b_cenum nm tname uns ml
   end.
 Definition ddef_x (b : ddef) : xitem :=
   match b with
   | BStruct nm fl => st_x nm fl | BRoStruct nm fl => rt_x nm fl | BMessage nm fl => mt_x nm fl
   | BDMessage nm fl => md_x nm fl | BUnion nm bl => u_x nm bl | BEnum nm tname uns bits ml => te_x nm tname ml
   | BUEnum nm ml => e_x nm ml
+  | BFStruct nm fl => cf_x nm fl | BFMessage nm fl => cmf_x nm fl | BFEnum nm tname uns bits ml => ce_x nm tname ml
   end.
 Lemma ddef_base_ok b : ddef_ok b -> gbase_ok (ddef_base b) (ddef_x b).
 Proof.
-  destruct b as [nm fl|nm fl|nm fl|nm fl|nm bl|nm tname uns bits ml|nm ml]; cbn [ddef_ok ddef_base ddef_x].
+  destruct b as [nm fl|nm fl|nm fl|nm fl|nm bl|nm tname uns bits ml|nm ml|nm fl|nm fl|nm tname uns bits ml]; cbn [ddef_ok ddef_base ddef_x].
   - intros [A B]. now apply b_struct_ok.
   - intros [A B]. now apply b_rostruct_ok.
   - intros (A & B & C). now apply b_message_ok.
@@ -46,6 +54,9 @@ Proof.
   - intros (A & B & C & D). now apply b_union_ok.
   - intros (A & B & C & D & E). now apply (b_enum_ok nm tname uns bits ml).
   - intros (A & B & C). now apply b_uenum_ok.
+  - intros [A B]. now apply b_cfstruct_ok.
+  - intros (A & B & C). now apply b_cmmessage_ok.
+  - intros (A & B & C & D & E). now apply (b_cenum_ok nm tname uns bits ml).
 Qed.
 
 Inductive sdefn :=
@@ -61,7 +72,11 @@ Inductive sdefn :=
 | SDocStruct (cs : list bytes) (nm : ident) (fl : list tfdef) (blank : nat)
 | SDocMessage (cs : list bytes) (nm : ident) (fl : list tmfdef) (blank : nat)
 | SDec (P : list lprefix) (b : ddef) (blank : nat)
-| SImport (path : bytes) (blank : nat).
+| SImport (path : bytes) (blank : nat)
+| SFDocStruct (nm : ident) (fl : list cfdef) (blank : nat)    (* a struct whose fields may carry `//` doc comment lines (and tags) *)
+| SFDocMessage (nm : ident) (fl : list cmfdef) (blank : nat)  (* a message whose fields may carry such lines and then a [deprecated(..)] line *)
+| SFDocEnum (nm tname : ident) (uns : bool) (bits : N) (ml : list cedef) (blank : nat) (* a typed enum whose members may carry such lines *)
+| SEolStruct (nm : ident) (fl : list efdef) (blank : nat).     (* a struct whose fields may be followed, on their line, by a `//` comment *)
 
 Definition sdefn_ok (d : sdefn) : Prop :=
   match d with
@@ -78,6 +93,10 @@ Definition sdefn_ok (d : sdefn) : Prop :=
   | SDocMessage cs nm fl _ => cs <> [] /\ Forall cbody_ok cs /\ ident_ok nm /\ Forall tmfdef_ok fl /\ tmfs_ok [] (map btm fl)
   | SDec P b _ => Forall lprefix_ok P /\ ddef_ok b /\ (gb_opc0 (ddef_base b) = true -> popc (map bp P) 0%N = 0%N)
   | SImport path _ => Forall (fun x => dplain x = true) path
+  | SFDocStruct nm fl _ => ident_ok nm /\ Forall cfdef_ok fl
+  | SFDocMessage nm fl _ => ident_ok nm /\ Forall cmfdef_ok fl /\ cmfs_ok [] (map bcm fl)
+  | SFDocEnum nm tname uns bits ml _ => ident_ok nm /\ ident_ok tname /\ base_ok (ibytes tname) uns bits /\ Forall cedef_ok ml /\ Forall (cmember_ok uns bits) (map bce ml)
+  | SEolStruct nm fl _ => ident_ok nm /\ Forall efdef_ok fl
   end.
 Definition xel_of (d : sdefn) : xel :=
   match d with
@@ -94,10 +113,14 @@ Definition xel_of (d : sdefn) : xel :=
   | SDocMessage cs nm fl k => (cm_item cs nm fl, cm_x cs nm fl, k)
   | SDec P b k => (dec_item (map bp P) (ddef_base b), dec_x P (ddef_x b), k)
   | SImport path k => (i_item path, i_x path, k)
+  | SFDocStruct nm fl k => (cf_item nm fl, cf_x nm fl, k)
+  | SFDocMessage nm fl k => (cmf_item nm fl, cmf_x nm fl, k)
+  | SFDocEnum nm tname uns bits ml k => (ce_item nm tname uns ml, ce_x nm tname ml, k)
+  | SEolStruct nm fl k => (ef_item nm fl, ef_x nm fl, k)
   end.
 Lemma xel_of_ok d : sdefn_ok d -> xel_ok (xel_of d).
 Proof.
-  destruct d as [nm fl k|nm fl k|nm fl k|nm ml k|nm bl k|op nm fl k|op nm fl k|nm tname uns bits ml k|nm fl k|cs nm fl k|cs nm fl k|P b k|path k]; cbn [sdefn_ok xel_of xel_ok].
+  destruct d as [nm fl k|nm fl k|nm fl k|nm ml k|nm bl k|op nm fl k|op nm fl k|nm tname uns bits ml k|nm fl k|cs nm fl k|cs nm fl k|P b k|path k|nm fl k|nm fl k|nm tname uns bits ml k|nm fl k]; cbn [sdefn_ok xel_of xel_ok].
   - intros [A B]. now apply st_item_ok.
   - intros [A B]. now apply rt_item_ok.
   - intros (A & B & C). now apply mt_item_ok.
@@ -111,6 +134,10 @@ Proof.
   - intros (A & B & C & D & E). now apply cm_item_ok.
   - intros (A & B & C). apply dec_item_ok; [now apply ddef_base_ok|exact A|exact C].
   - intros A. now apply i_item_ok.
+  - intros [A B]. now apply cf_item_ok.
+  - intros (A & B & C). now apply cmf_item_ok.
+  - intros (A & B & C & D & E). now apply (ce_item_ok nm tname uns bits ml).
+  - intros [A B]. now apply ef_item_ok.
 Qed.
 
 (* the lexemes of the text, the File it states, its canonical text *)
@@ -140,6 +167,9 @@ Definition structs_of (d : sdefn) : list struct_ :=
   | SDocStruct cs nm fl _ => [tstruct_of_cm (join_nl cs) (ibytes nm) (map btf fl)]
   | SDec P (BStruct nm fl) _ => [gstruct_of (dec_cmt P) (dec_opc P) false (ibytes nm) (map btf fl)]
   | SDec P (BRoStruct nm fl) _ => [gstruct_of (dec_cmt P) (dec_opc P) true (ibytes nm) (map btf fl)]
+  | SFDocStruct nm fl _ => [cstruct_of (ibytes nm) (map bcf fl)]
+  | SDec P (BFStruct nm fl) _ => [gcstruct_of (dec_cmt P) (dec_opc P) (ibytes nm) (map bcf fl)]
+  | SEolStruct nm fl _ => [estruct_of (ibytes nm) (map bef fl)]
   | _ => []
   end.
 Definition messages_of (d : sdefn) : list message :=
@@ -150,6 +180,8 @@ Definition messages_of (d : sdefn) : list message :=
   | SDocMessage cs nm fl _ => [tmessage_of_cm (join_nl cs) (ibytes nm) (map btm fl)]
   | SDec P (BMessage nm fl) _ => [gmessage_of (dec_cmt P) (dec_opc P) (ibytes nm) (map btm fl)]
   | SDec P (BDMessage nm fl) _ => [gdmessage_of (dec_cmt P) (dec_opc P) (ibytes nm) (map bdf fl)]
+  | SFDocMessage nm fl _ => [cmessage_of (ibytes nm) (map bcm fl)]
+  | SDec P (BFMessage nm fl) _ => [gcmessage_of (dec_cmt P) (dec_opc P) (ibytes nm) (map bcm fl)]
   | _ => []
   end.
 Definition enums_of (d : sdefn) : list enum_ :=
@@ -158,6 +190,8 @@ Definition enums_of (d : sdefn) : list enum_ :=
   | STEnum nm tname uns bits ml _ => [tenum_of (ibytes nm) (ibytes tname) uns (map bem ml)]
   | SDec P (BEnum nm tname uns bits ml) _ => [genum_of (dec_cmt P) (ibytes nm) (ibytes tname) uns (map bem ml)]
   | SDec P (BUEnum nm ml) _ => [guenum_of (dec_cmt P) (ibytes nm) (map bem ml)]
+  | SFDocEnum nm tname uns bits ml _ => [cenum_of (ibytes nm) (ibytes tname) uns (map bce ml)]
+  | SDec P (BFEnum nm tname uns bits ml) _ => [gcenum_of (dec_cmt P) (ibytes nm) (ibytes tname) uns (map bce ml)]
   | _ => []
   end.
 Definition unions_of (d : sdefn) : list union_ :=
@@ -185,7 +219,7 @@ Proof.
   { clear. induction dl as [|d dl IH]; intros f; [cbn; rewrite !app_nil_r; repeat split|].
     cbn [map gfile fold_left flat_map]. destruct (IH (it_upd (fst (xe_el (xel_of d))) f)) as (A & B & C & D & E & F & G0).
     unfold gfile in *. rewrite A, B, C, D, E, F, G0.
-    destruct d as [nm fl k|nm fl k|nm fl k|nm ml k|nm bl k|op nm fl k|op nm fl k|nm tname uns bits ml k|nm fl k|cs nm fl k|cs nm fl k|P [nm fl|nm fl|nm fl|nm fl|nm bl|nm tname uns bits ml|nm ml] k|path k]; cbn [xel_of xe_el fst snd st_item rt_item mt_item e_item u_item os_item om_item te_item md_item cs_item cm_item dec_item ddef_base b_struct b_rostruct b_message b_dmessage b_union b_enum b_uenum gb_upd i_item add_import imports_of it_upd add_struct add_message add_enum add_union structs messages enums unions consts imports gopackage app structs_of messages_of enums_of unions_of];
+    destruct d as [nm fl k|nm fl k|nm fl k|nm ml k|nm bl k|op nm fl k|op nm fl k|nm tname uns bits ml k|nm fl k|cs nm fl k|cs nm fl k|P [nm fl|nm fl|nm fl|nm fl|nm bl|nm tname uns bits ml|nm ml|nm fl|nm fl|nm tname uns bits ml] k|path k|nm fl k|nm fl k|nm tname uns bits ml k|nm fl k]; cbn [xel_of xe_el fst snd ef_item b_cfstruct b_cmmessage b_cenum cf_item cmf_item ce_item st_item rt_item mt_item e_item u_item os_item om_item te_item md_item cs_item cm_item dec_item ddef_base b_struct b_rostruct b_message b_dmessage b_union b_enum b_uenum gb_upd i_item add_import imports_of it_upd add_struct add_message add_enum add_union structs messages enums unions consts imports gopackage app structs_of messages_of enums_of unions_of];
       rewrite <- ?app_assoc, ?app_nil_r; repeat split; reflexivity. }
   destruct (G dl file0) as (A & B & C & D & E & F & G0). cbn [file0 structs messages enums unions consts imports gopackage app] in *. repeat split; assumption.
 Qed.
